@@ -213,7 +213,7 @@ func c05Judge(c *mon.Ctx, a *c05Agg, text []byte, trailing bool, report bool, sh
 	if len(text) <= 4 || (len(text) > 0 && (int(text[0])+int(text[len(text)-1])*7+len(text))%32 == 0) {
 		a.afterLen++
 		if v := c05CheckAfterLen(text, trailing); v != obs.Verdict() && report {
-			c.Violate("after-len", c05MkCase(text, trailing), obs.Verdict(), v, "Document.Check after Len() on the same Document differs from Check on a fresh Document")
+			c.Violate("after-len", c05MkCase(text, trailing), obs.Verdict(), v, "Document.Check after Len() / after lexemes were read on the same Document differs from Check on a fresh Document")
 			return true
 		}
 	}
@@ -251,6 +251,24 @@ func c05Judge(c *mon.Ctx, a *c05Agg, text []byte, trailing bool, report bool, sh
 // that scan leaves behind (scanners may be recycled) must not reach this document.
 func c05CheckAfterLen(text []byte, trailing bool) string {
 	d := lib.Doc(string(text), trailing)
+	if len(text)%3 == 2 {
+		// lexemes of the Document were read before (a validation took place, or the caller
+		// walked it): one to four of them, or all up to the end / the first error
+		n := len(text) / 3 % 5
+		for i := 0; n == 4 || i <= n; i++ {
+			stop := false
+			if o := lib.Safe(func() error {
+				_, err := d.NextLexeme()
+				return err
+			}); !o.OK {
+				stop = true
+			}
+			if stop || i > 4*len(text)+8 {
+				break
+			}
+		}
+		return lib.Safe(d.Check).Verdict()
+	}
 	if len(text)%2 == 0 {
 		bad := lib.Doc([]string{"tru", "\"abc", "-", "1.", "[nul]", "{\"a\": fals"}[len(text)/2%6], trailing)
 		lib.Safe(bad.Check)
